@@ -397,7 +397,8 @@ def capture_exact(impl: Pattern, spec: Pattern, groupmap: Dict[Union[str, int], 
             wsp = (opened[j], closed[j]) if j in opened and j in closed else None
             if sp != wsp:
                 same_pos = False
-        assert not same_pos, "internal error: symbolic and concrete simulation disagree"
+        if same_pos:
+            raise RuntimeError("internal error: symbolic and concrete simulation disagree on %r" % w)
     return CaptureWitness(w, want, got)
 
 
@@ -416,8 +417,8 @@ def group_contents_included(a: Pattern, group: Union[int, str], b: Pattern
         return None
     w = part.render(path)
     spans = simulate(a, w)
-    assert spans is not None and spans[g - 1] is not None, \
-        "internal error: symbolic and concrete simulation disagree"
+    if spans is None or spans[g - 1] is None:
+        raise RuntimeError("internal error: symbolic and concrete simulation disagree on %r" % w)
     s, e = spans[g - 1]
     return (w, w[s:e])
 
